@@ -53,6 +53,9 @@ Inductive op :=
   | ParIterElementsIdx (s : Z) | ParIterElementsMutIdx (s f : Z) | IntoParIterElementsIdx (s : Z)
   (* rows (axis 0) or columns (axis 1) of iter_rows_mut / iter_cols_mut dealt to nthreads threads, every element mutated by f *)
   | ThreadedVectorsMut (s nthreads f axis : Z)
+  (* rows / columns split between two threads through adaptors on the outer iterator; nothing is mutated, the observation
+     says that no element was reachable twice *)
+  | ThreadedScan (s front adaptor axis : Z)
   (* lifetime *)
   | DropOp (s : Z).
 
@@ -309,6 +312,7 @@ Definition step (p : pool) (o : op) : pool * obs :=
   | IntoParIterElementsIdx s => need1 s (fun m => (put p s None, obs_idx_items (iter_elements_with_index m)))
   (* every element belongs to exactly one yielded vector, every vector to exactly one thread: the outcome is `apply` *)
   | ThreadedVectorsMut s _ f _ => need1 s (fun m => (put p s (Some (apply (fn1 f) m)), OUnit))
+  | ThreadedScan s _ _ _ => need1 s (fun m => (p, OUnit))
   (* ----- lifetime ----- *)
   | DropOp s => need1 s (fun m => (put p s None, OUnit))
   end.
